@@ -49,6 +49,7 @@ class Ctx:
         self.observed = []        # (key, value-or-proxy)
         self.fresh = 0
         self.assertions = 0
+        self.subst = []
         self.som = False      # normalise polynomials to sums of monomials (helps nonlinear real identities)
 
     def check(self, *extra):
@@ -89,8 +90,20 @@ class Ctx:
         return self._alt_model if self._alt_model is not None else self.solver.model()
 
     # entries: ['B', cond_hash, value, has_alt]  |  ['R', expr_hash, excluded(list of z3 vals), cur, more]
+    def _note_equality(self, cond, value):
+        """remember `variable == numeral` facts of the path: later conditions are rewritten with them, which settles
+        most repeated tests on an already pinned variable without a solver call"""
+        if value and z3.is_eq(cond):
+            a, b = cond.arg(0), cond.arg(1)
+            if z3.is_int_value(a) or z3.is_bv_value(a):
+                a, b = b, a
+            if z3.is_const(a) and a.decl().kind() == z3.Z3_OP_UNINTERPRETED and (z3.is_int_value(b) or z3.is_bv_value(b)):
+                self.subst.append((a, b))
+
     def decide(self, cond):
         h = _fingerprint(cond)
+        if self.subst:
+            cond = z3.substitute(cond, *self.subst)
         cond = z3.simplify(cond, som=True) if self.som else z3.simplify(cond)
         if z3.is_true(cond):
             return True
@@ -103,6 +116,7 @@ class Ctx:
             self.pos += 1
             self.trail.append(ent)
             self.solver.add(cond if ent[2] else z3.Not(cond))
+            self._note_equality(cond, ent[2])
             return ent[2]
         rt = self.check(cond)
         # the path condition itself is satisfiable (invariant of the search), so cond infeasible => not cond feasible
@@ -125,11 +139,14 @@ class Ctx:
         self.trail.append(ent)
         self.script.append(ent)
         self.solver.add(cond if ent[2] else z3.Not(cond))
+        self._note_equality(cond, ent[2])
         return ent[2]
 
     def realize(self, expr):
         """return a concrete z3 value for expr; every feasible value is visited on some path"""
         h = _fingerprint(expr)
+        if self.subst:
+            expr = z3.substitute(expr, *self.subst)
         expr = z3.simplify(expr)
         if z3.is_int_value(expr) or z3.is_bv_value(expr) or z3.is_rational_value(expr) or z3.is_true(expr) \
                 or z3.is_false(expr):
@@ -159,6 +176,9 @@ class Ctx:
             ent[4] = r2 == z3.sat
             self.realisations += 1
         self.solver.add(expr == ent[3])
+        if z3.is_const(expr) and expr.decl().kind() == z3.Z3_OP_UNINTERPRETED and \
+                (z3.is_int_value(ent[3]) or z3.is_bv_value(ent[3])):
+            self.subst.append((expr, ent[3]))
         return ent[3]
 
     def model_values(self):
@@ -827,6 +847,14 @@ class SymV:
 
     def note(self, text):
         self.notes.append(text)
+
+    def peek(self, exprs):
+        """one concrete instance of the given z3 terms under the current path condition (no constraint is added: a
+        representative of the path, used for messages and for class-invariant follow-up calls)"""
+        if self.c.check() != z3.sat:
+            raise Inconclusive('no model for the current path')
+        m = self.c.model()
+        return [_pyval(m.eval(e, model_completion=True)) for e in exprs]
 
     def prove(self, cond, label, info=None):
         """assert `cond` for every value on this path; never forks"""
